@@ -420,12 +420,12 @@ fn gen_cases(a: &Args, rng: &mut Rng) -> Vec<(Vec<Vec<Op>>, Vec<usize>, &'static
         let rr = vec![rd(7), Op::Rel(0), rd(7), Op::Rel(0)];
         let wr = vec![w(7), Op::Rel(0), rd(7), Op::Rel(0)];
         let rw = vec![rd(7), Op::Rel(0), w(7), Op::Rel(0)];
-        if thorough { vec![(ww.clone(), ww.clone()), (ww.clone(), rr.clone()), (rr.clone(), ww.clone()), (wr.clone(), rw.clone()), (rw.clone(), wr.clone()), (rr.clone(), rr.clone()), (wr.clone(), ww.clone())] }
+        if thorough { vec![(ww.clone(), ww.clone()), (ww.clone(), rr.clone()), (wr.clone(), rw.clone()), (rw.clone(), wr.clone()), (rr.clone(), rr.clone()), (wr.clone(), ww.clone())] }
         else { vec![(ww.clone(), ww.clone()), (rw.clone(), wr.clone())] }
     };
     for (fi, (p0, p1)) in fam.iter().enumerate() {
         let (amax, bmax) = if thorough { (12, 12) } else if fi == 0 { (10, 10) } else { (6, 9) };
-        let cvals: Vec<usize> = if thorough { vec![0, 1, 2, 3, 4, 5] } else { vec![0, 3] };
+        let cvals: Vec<usize> = if thorough { vec![0, 1, 2, 3, 5] } else { vec![0, 3] };
         for aa in 0..=amax { for bb in 0..=bmax { for cc in &cvals {
             if bb == 0 && *cc != 0 { continue; }
             cs.push((vec![p0.clone(), p1.clone()], block_schedule(&[(0, aa), (1, bb), (0, *cc)]), "window_2thr_2preempt"));
@@ -445,7 +445,7 @@ fn gen_cases(a: &Args, rng: &mut Rng) -> Vec<(Vec<Vec<Op>>, Vec<usize>, &'static
         cs.push((progs, block_schedule(&[(o[0], a0), (o[1], b0), (o[2], c0), (o[3], d0)]), "window_3thr"));
     }
     // 3. random disciplined programs (ascending page order), 2 and 3 threads, sticky random schedules
-    let nr = if thorough { 6000 } else { 500 };
+    let nr = if thorough { 4000 } else { 500 };
     for i in 0..nr {
         let n = if i % 3 == 2 { 3 } else { 2 };
         let pages: &[i64] = if rng.chance(1, 2) { &[7] } else if rng.chance(1, 2) { &[7, 8] } else { &[7, 8, 107] };
